@@ -659,6 +659,9 @@ static int d_vdloadpath(fx_t *F, int v, dv_t *o)
     n = dvp(o, n, F->path_none, X_FAIL, EM_NOENT, "nonexistent");
     n = dvp(o, n, F->path_bad, X_FAIL, EM_BADMSG, "syntax-error");
     n = dvp(o, n, "/", X_FAIL, EM_SYS | EM_LATE, "directory");
+    for (int i = 0; i < FX_NMALFORMED; ++i)
+	n = dvp(o, n, F->path_mal[i], X_FAIL, fx_malformed[i].em,
+		fx_malformed[i].name);
     return n;
 }
 static int d_vdsavepath(fx_t *F, int v, dv_t *o)
